@@ -541,6 +541,26 @@ fn generate(seed: u64, n: usize, out: &mut dyn Write) {
             }
             if gen_enabled && cur_slot != "-" { gpos = gpos.saturating_add(delta); }
         }
+        // one App in ten is a marathon: an endlessly repeating timeline kept running for about a day of animation time
+        // (600 s frames, or one 65 535 s frame followed by ordinary ones) — the position keeps growing by each frame's delta
+        if r.chance(1, 10) {
+            writeln!(out, "reset").unwrap();
+            writeln!(out, "border {} {}", orders[variant].0 as u8, orders[variant].1 as u8).unwrap();
+            writeln!(out, "shape P f32:a f32:a").unwrap();
+            writeln!(out, "shape Q f32:a").unwrap();
+            let (dur, delay) = (r.pick(&[1.0f32, 2.5, 600.0, 0.75]), r.pick(&[0.0f32, 0.5, 3.0]));
+            writeln!(out, "tl 1 P {} {} i {} {} 2 {} - {} {} {} - {} {}", b(dur), b(delay), r.below(2), EASING_NAMES[r.below(29) as usize],
+                b(0.0), b(-4.0), b(2.0), b(1.0), b(8.0), b(-6.0)).unwrap();
+            writeln!(out, "bapp {} {} 1 1 none 0 none none q{}", b(1.0), b(1.0), variant).unwrap();
+            let mut gpos: u64 = 0;
+            let plan: Vec<u64> = if r.chance(1, 2) { (0..(112 + r.below(30))).map(|_| 600_000_000_000u64).collect() }
+                else { let mut v = vec![65_535_000_000_000u64]; for _ in 0..(60 + r.below(60)) { v.push(16_666_667); } v };
+            for raw in plan {
+                writeln!(out, "frame {}", raw).unwrap();
+                writeln!(out, "evalat 1 {}", gpos).unwrap();
+                gpos = gpos.saturating_add(raw);
+            }
+        }
     }
 }
 
